@@ -244,3 +244,38 @@ func Recover(f func()) (p interface{}) {
 	f()
 	return nil
 }
+
+// NormArrays returns a copy of x in which every array is sorted by the
+// canonical rendering of its elements (rulio arrays are sets).
+func NormArrays(x interface{}) interface{} {
+	switch v := x.(type) {
+	case map[string]interface{}:
+		m := make(map[string]interface{}, len(v))
+		for k, y := range v {
+			m[k] = NormArrays(y)
+		}
+		return m
+	case core.Map:
+		return NormArrays(map[string]interface{}(v))
+	case core.Bindings:
+		return NormArrays(map[string]interface{}(v))
+	case []interface{}:
+		ys := make([]interface{}, len(v))
+		for i, y := range v {
+			ys[i] = NormArrays(y)
+		}
+		sort.SliceStable(ys, func(i, j int) bool { return Canon(ys[i]) < Canon(ys[j]) })
+		return ys
+	}
+	return x
+}
+
+// BindingsSetN is BindingsSet with arrays inside values treated as sets.
+func BindingsSetN(bss []core.Bindings) []string {
+	out := make([]string, 0, len(bss))
+	for _, bs := range bss {
+		out = append(out, Canon(NormArrays(map[string]interface{}(bs))))
+	}
+	sort.Strings(out)
+	return out
+}
